@@ -44,7 +44,7 @@ EXPORT void destroy_LagrangeHalfCPolynomial_array(int32_t nbelts, LagrangeHalfCP
 EXPORT void LagrangeHalfCPolynomialClear(
         LagrangeHalfCPolynomial *reps) {
     LagrangeHalfCPolynomial_IMPL *reps1 = (LagrangeHalfCPolynomial_IMPL *) reps;
-    const int32_t N = reps1->proc->N;
+    const int32_t N = fftp1024.N;
 #ifndef __AVX2__
     for (int32_t i = 0; i < N; i++)
         reps1->coefsC[i] = 0;
@@ -70,7 +70,7 @@ EXPORT void LagrangeHalfCPolynomialClear(
 #ifndef __AVX2__
 EXPORT void LagrangeHalfCPolynomialSetTorusConstant(LagrangeHalfCPolynomial *result, const Torus32 mu) {
     LagrangeHalfCPolynomial_IMPL *result1 = (LagrangeHalfCPolynomial_IMPL *) result;
-    const int32_t Ns2 = result1->proc->Ns2;
+    const int32_t Ns2 = fftp1024.Ns2;
     double *b = result1->coefsC;
     double *c = b + Ns2;
     const double muc = mu; //we do not rescale
@@ -83,7 +83,7 @@ EXPORT void LagrangeHalfCPolynomialSetTorusConstant(LagrangeHalfCPolynomial *res
 #else
 EXPORT void LagrangeHalfCPolynomialSetTorusConstant(LagrangeHalfCPolynomial* result, const Torus32 mu) {
     LagrangeHalfCPolynomial_IMPL* result1 = (LagrangeHalfCPolynomial_IMPL*) result;
-    const int32_t Ns2 = result1->proc->Ns2;
+    const int32_t Ns2 = fftp1024.Ns2;
     double* b = result1->coefsC;
     double* c = b+Ns2;
     double* d = c+Ns2;
@@ -113,7 +113,7 @@ EXPORT void LagrangeHalfCPolynomialSetTorusConstant(LagrangeHalfCPolynomial* res
 #ifndef __AVX2__
 EXPORT void LagrangeHalfCPolynomialAddTorusConstant(LagrangeHalfCPolynomial *result, const Torus32 mu) {
     LagrangeHalfCPolynomial_IMPL *result1 = (LagrangeHalfCPolynomial_IMPL *) result;
-    const int32_t Ns2 = result1->proc->Ns2;
+    const int32_t Ns2 = fftp1024.Ns2;
     double *b = result1->coefsC;
     const double muc = mu; //we do not rescale
     for (int32_t j = 0; j < Ns2; j++) b[j] += muc;
@@ -121,7 +121,7 @@ EXPORT void LagrangeHalfCPolynomialAddTorusConstant(LagrangeHalfCPolynomial *res
 #else
 EXPORT void LagrangeHalfCPolynomialAddTorusConstant(LagrangeHalfCPolynomial* result, const Torus32 mu) {
     LagrangeHalfCPolynomial_IMPL* result1 = (LagrangeHalfCPolynomial_IMPL*) result;
-    const int32_t Ns2 = result1->proc->Ns2;
+    const int32_t Ns2 = fftp1024.Ns2;
     double* b = result1->coefsC;
     double* c = b+Ns2;
 
@@ -146,11 +146,11 @@ EXPORT void LagrangeHalfCPolynomialAddTorusConstant(LagrangeHalfCPolynomial* res
 
 EXPORT void LagrangeHalfCPolynomialSetXaiMinusOne(LagrangeHalfCPolynomial *result, const int32_t ai) {
     LagrangeHalfCPolynomial_IMPL *result1 = (LagrangeHalfCPolynomial_IMPL *) result;
-    const int32_t Ns2 = result1->proc->Ns2;
-    const int32_t _2Nm1 = result1->proc->_2N - 1;
-    const double *cosomegaxminus1 = result1->proc->cosomegaxminus1;
-    const double *sinomegaxminus1 = result1->proc->sinomegaxminus1;
-    const int32_t *reva = result1->proc->reva;
+    const int32_t Ns2 = fftp1024.Ns2;
+    const int32_t _2Nm1 = fftp1024._2N - 1;
+    const double *cosomegaxminus1 = fftp1024.cosomegaxminus1;
+    const double *sinomegaxminus1 = fftp1024.sinomegaxminus1;
+    const int32_t *reva = fftp1024.reva;
     double *b = result1->coefsC;
     double *c = b + Ns2;
     for (int32_t i = 0; i < Ns2; i++) {
@@ -164,7 +164,7 @@ EXPORT void LagrangeHalfCPolynomialAddTo(
         LagrangeHalfCPolynomial *accum,
         const LagrangeHalfCPolynomial *a) {
     LagrangeHalfCPolynomial_IMPL *result1 = (LagrangeHalfCPolynomial_IMPL *) accum;
-    const int32_t N = result1->proc->N;
+    const int32_t N = fftp1024.N;
     double *rr = result1->coefsC;
     double *ar = ((LagrangeHalfCPolynomial_IMPL *) a)->coefsC;
     for (int32_t i = 0; i < N; i++) {
